@@ -62,6 +62,15 @@ def run(ctx):
         # smaller than the data is the caller's contradiction, not the library's)
         cases.append({"kind": "owner", "tree": rand_tree(rng, 4, depth, pz=0.0, pabs=0.2), "depth": depth, "fdflt": rng.choice([0, 3]), "tdflt": rng.choice([0, 9]),
                       "fshape": 5, "tshape": rng.choice([3, 5, 8] if how == "setRoot" else [5, 8]), "how": how})
+    # tensors built from nests without a declared shape, rectangular and ragged across parents
+    for _ in range(n // 3):
+        depth = rng.choice([2, 3])
+        def nest(d, width):
+            if d == 1:
+                return [rng.choice([0, 0, 1, 2]) for _ in range(width)]
+            w = rng.randint(1, 4)                   # the width of THIS parent's sub-lists
+            return [nest(d - 1, w) for _ in range(width)]
+        cases.append({"kind": "ctor", "depth": depth, "nest": nest(depth, rng.randint(1, 3))})
     part = family.run_family(ctx, "C14", cases, "harness.exec_attrs", "AttrsTrace.tla", "AttrsTrace.cfg",
                              op_of=lambda c, lg, st: c.get("op", c["kind"]) + (":" + c["style"] if "style" in c else "") + (":" + c["splitkind"] if "splitkind" in c else ""),
                              where_of=lambda c, lg, st: c["kind"] + (":" + classify_tree(c["tree"]) if c["kind"] == "transform" else "") + (":rel" if c.get("rel") else "")
